@@ -24,7 +24,7 @@ ASSUMPTIONS = [
     'say whose block counts); what is judged is that every flag is restored once all blocks have exited',
     're-assigning the identical object may raise or not; only "the held object did not change" is required',
 ]
-REQUIRED = {'rebinds_attempted_by_watcher_during_delivery': 6, 'class_relock_cases': 12, 'relock_failures_injected': 15, 'pending_references_offered_to_constants': 20, 'linked_constant_failed_deliveries': 20, 'forbidden_attempts': 3000, 'blocks': 500, 'blocks_raised': 100, 'flag_probes': 2000, 'ctor_constant_reference': 50,
+REQUIRED = {'async_deliveries_checked': 15, 'rebinds_attempted_by_watcher_during_delivery': 6, 'class_relock_cases': 12, 'relock_failures_injected': 15, 'pending_references_offered_to_constants': 20, 'linked_constant_failed_deliveries': 20, 'forbidden_attempts': 3000, 'blocks': 500, 'blocks_raised': 100, 'flag_probes': 2000, 'ctor_constant_reference': 50,
             'ctor_constant_pending_reference': 50, 'library_attempts': 100, 'async_attempts': 100, 'observer_calls': 100, 'class_blocks': 50}
 
 _st = {}
@@ -166,9 +166,14 @@ def async_case(idx, rng, P, rep):
             await asyncio.sleep(0)
         await attempts(f'while the {kind} reference of {target!r} was pending')
         for gi, g in enumerate(gates[:1 if kind == 'coroutine' else 2]):
-            g.set_result(Tok())
+            delivered = Tok()
+            g.set_result(delivered)
             for _ in range(5):
                 await asyncio.sleep(0)
+            rep.count('async_deliveries_checked')
+            if getattr(o, target) is not delivered:
+                problems.append(('linked-constant-not-updated/asynchronous-reference' if target == 'cr' else 'linked-parameter-not-updated/asynchronous-reference',
+                                 f'result {gi} of the {kind} reference was not delivered to {target!r}: it holds {getattr(o, target)!r}'))
             await attempts(f'after result {gi} of the {kind} reference was delivered')
         # an asynchronous function offered to the constant that accepts references, outside any block
         for _ in range(5):
